@@ -19,6 +19,8 @@ func (x *Exec) step(fr *Frame, st *State, ins ssa.Instruction, cont func(*Frame,
 		ref := x.newRef(st, in.Comment)
 		if !in.Heap {
 			st.markStack(ref)
+		} else if in.Comment != "varargs" {
+			st.markPrivate(ref)
 		}
 		p := &PtrV{Ref: ref, Elem: elem}
 		if byteArrayLen(elem) > 0 && in.Referrers() != nil {
@@ -88,10 +90,14 @@ func (x *Exec) step(fr *Frame, st *State, ins ssa.Instruction, cont func(*Frame,
 		for _, b := range in.Bindings {
 			fv.Free = append(fv.Free, x.operand(fr, st, b))
 		}
+		x.escapeArgs(st, fv.Free)
 		fr.vals[in] = fv
 	case *ssa.Store:
 		p := x.operand(fr, st, in.Addr).(*PtrV)
 		v := x.operand(fr, st, in.Val)
+		if !storeIntoNonEscapingLocal(in.Addr) {
+			x.escapeValue(st, v)
+		}
 		x.StoreTo(st, p, v)
 		if !storeRootIsLocal(in.Addr) {
 			x.bumpEpoch(st)
@@ -103,6 +109,8 @@ func (x *Exec) step(fr *Frame, st *State, ins ssa.Instruction, cont func(*Frame,
 		mt := in.Map.Type().Underlying().(*types.Map)
 		kv := x.operand(fr, st, in.Key)
 		vv := x.operand(fr, st, in.Value)
+		x.escapeValue(st, kv)
+		x.escapeValue(st, vv)
 		x.mapUpdate(st, m, mt, kv, vv)
 	case *ssa.Range:
 		xv := x.operand(fr, st, in.X)
@@ -415,6 +423,10 @@ func (x *Exec) sliceOfByteArray(st *State, arr *Term, n int) *SliceV {
 func (x *Exec) box(st *State, t types.Type, v Value) *IfaceV {
 	if _, ok := t.Underlying().(*types.Interface); ok {
 		return v.(*IfaceV)
+	}
+	if _, isPtr := t.Underlying().(*types.Pointer); !isPtr {
+		// the value is copied into a box on the heap: references inside it are stored there
+		x.escapeValue(st, v)
 	}
 	tag := x.tagOf(t)
 	if _, ok := t.Underlying().(*types.Pointer); ok {
